@@ -4,6 +4,12 @@ Stages
   1. translator: yacc-parser.y of the source snapshot -> coq/Inline/Gen/GrammarGen.v (c11_yacc_reader);
      the Coq obligation `grammar_gen = expected_grammar` ties the proofs to the grammar file.
   2. ctx.prove(): re-checks Props/Properties_C11.v.
+  1b. translator: tokenizer.l of the source snapshot -> coq/Inline/Gen/LexerGen.v (c11_flex_reader); obligation `lexer_gen = expected_lexer`.
+     The committed LexerGen.v is the reading of tokenizer.l WITH fixes/C11_newline.patch; the reading of the unpatched file is recognised
+     by its hash (known finding illformed-accepted:stray-newline, witness replayed on the real code).
+  4. scanner stage (harness/c11_lex.c): the real yylex is called directly (token names, lexemes, yylval, what is written to yyout) together with
+     mps_parse_inline_poly_from_string on hex-encoded inputs (newlines, bytes >= 128) and compared with the extracted GENERATED scanner, the
+     pipeline over it, the hand-written scanner model, the model of the C literal conversion and a Python reading of the rules.
   3. correspondence / property predicate on the real code (harness/c11_inline.c, ASan+UBSan):
        every generated expression TREE is printed (minimal parentheses, plus redundant-parenthesis /
        whitespace variants), its polynomial is computed here with exact Gaussian-rational arithmetic
@@ -27,12 +33,16 @@ from concurrent.futures import ThreadPoolExecutor
 import vf
 import c11_yacc_reader as yr
 import c11_bison_report as br
+import c11_flex_reader as fr
 
 VERIF = os.path.dirname(os.path.dirname(os.path.abspath(__file__)))
 GEN = os.path.join(VERIF, "coq", "Inline", "Gen", "GrammarGen.v")
 AUT = os.path.join(VERIF, "coq", "Inline", "Gen", "AutomatonGen.v")
+LEXGEN = os.path.join(VERIF, "coq", "Inline", "Gen", "LexerGen.v")
 # translator output for the grammar of /repo HEAD before fixes/C11_grammar.patch (sha1 of the generated text)
 UNPATCHED_GRAMMAR_SHA1 = "b7109e49beb196000c4035217ec50870d3fc0d24"
+# translator output for tokenizer.l before fixes/C11_newline.patch (catch-all rule `.` instead of `.|\n`)
+UNPATCHED_LEXER_SHA1 = "063303298bfe7c44ac421e9217767c76eb3a4e21"
 
 # ----------------------------------------------------------------------------- exact arithmetic
 Z0 = (Fr(0), Fr(0))
@@ -231,6 +241,24 @@ def exhaustive(depth, pows):
 
 LITS = ["0", "1", "2", "7", "10", "007", "1234567891", "3/4", "1/2", "10/4", "0/5", "3/010", "5/08", "06/09", "0.0", "0.00e1", "0000", "00007", "00000000/3", "0000.50", "0000/5", "000012/00008", "00000e2",
         "1.5", "0.25", "0.010", "00.5", "2.", "1.e2", "1e-3", "1E+2", "12.5e1", "1.5e3", "0e5", "2.50E-2", "1e010"]
+
+
+def rand_literal(rng):
+    """a random numeric literal text over the case splits of the scanner / the conversion: leading zeros, N/D with leading zeros in
+    D, trailing point, empty / zero fractions, exponents with and without sign (|exponent| <= 40)"""
+    def digits(lo, hi, lz=0.3):
+        s = "".join(rng.choice("0123456789") for _ in range(rng.randrange(lo, hi + 1)))
+        return ("0" * rng.randrange(1, 4) + s) if rng.random() < lz else s
+    r = rng.random()
+    if r < 0.15: return digits(1, 8)
+    if r < 0.40:
+        d = digits(1, 5)
+        while int(d) == 0: d = digits(1, 5)
+        return digits(1, 6) + "/" + d
+    t = digits(1, 5)
+    if rng.random() < 0.7: t += "." + (digits(0, 5, 0.2) if rng.random() < 0.85 else "")
+    if rng.random() < 0.6: t += rng.choice("eE") + rng.choice(["", "+", "-"]) + ("0" * rng.randrange(0, 3)) + str(rng.randrange(0, 41))
+    return t
 
 
 def rand_leaf(rng):
@@ -468,8 +496,222 @@ def regen_grammar(ctx):
         return "(* grammar file could not be read: %s *)\nDefinition grammar_gen := tt.\n" % (str(ex).replace("*)", "* )"),)
 
 
+def regen_lexer(ctx):
+    l = os.path.join(ctx.snap("san"), "src", "libmps", "monomial", "tokenizer.l")
+    try:
+        rules = fr.read_lexer(open(l, encoding="latin-1").read())
+        return fr.to_coq(rules), rules
+    except Exception as ex:
+        return "(* tokenizer.l could not be read: %s *)\nDefinition lexer_gen := tt.\n" % (str(ex).replace("*)", "* )")[:300],), None
+
+
+# ----------------------------------------------------------------------------- the scanner stage
+def hx(s): return s.encode("latin-1").hex()
+
+
+LEX_PIECES = ["0", "1", "7", "12", "007", "10", "/", "/0", "/5", "/00", "/08", ".", ".5", ".0", "e", "E", "e+", "e-", "E+", "e5", "E-3", "e+2",
+              "e0", "+", "-", "x", "X", "y", "Y", "z", "Z", "i", "(", ")", "*", "^", " ", "\t", "  ", "\n", "\r", "#", "a", "w", "I", "\x7f",
+              "\x80", "\xff", "\x01", "_", ",", "//", "..", "ee", "1/2", "3.25e-1", "2.", "1e", "1e+", "1.e1", "0/0"]
+LEX_ALPHABET = ["1", "0", "/", ".", "e", "+", "-", "x", " ", "\n", "i", "E"]
+
+
+def lex_input_in_range(s):
+    """decimal exponents below 1000 and a bounded product of '^' exponents (the exact models are slow beyond; huge exponents are
+    outside the tested range, see ASSUME)"""
+    if re.search(r"[eE][+-]?\d{4,}", s): return False
+    prod = 1
+    for m in re.finditer(r"\^[ \t]*(\d+)", s):
+        if len(m.group(1)) > 3: return False
+        prod *= int(m.group(1)) + 1
+    return prod <= 150 and len(s) <= 400
+
+
+def lex_inputs(ctx, rng, texts):
+    """strings for the scanner tie: (a) every string of length <= 4 over an alphabet that spans the RATIONAL / FLOATING_POINT
+    overlaps, blanks and the newline; (b) random concatenations of lexeme fragments incl. bytes outside the token set;
+    (c) a sample of the expression strings of the main stage, some with a character replaced / inserted"""
+    out, kinds = [], []
+    def rec(prefix, depth):
+        out.append(prefix); kinds.append("exhaustive-len<=%d" % ctx.pick(4, 5))
+        if depth == 0: return
+        for a in LEX_ALPHABET: rec(prefix + a, depth - 1)
+    rec("", ctx.pick(4, 5))
+    for _ in range(ctx.pick(9000, 60000)):
+        out.append("".join(rng.choice(LEX_PIECES) for _ in range(rng.randrange(1, 9)))); kinds.append("fragment-soup")
+    for s in rng.sample(texts, min(len(texts), ctx.pick(3000, 20000))):
+        r = rng.random()
+        if r < 0.5 or not s: out.append(s); kinds.append("expression")
+        else:
+            p = rng.randrange(0, len(s) + 1); c = rng.choice(LEX_PIECES)
+            out.append(s[:p] + c + s[p + (1 if r < 0.75 else 0):]); kinds.append("expression-mutated")
+    seen, u, k = set(), [], []
+    for s, kd in zip(out, kinds):
+        if s in seen or "\x00" in s or not lex_input_in_range(s): continue
+        seen.add(s); u.append(s); k.append(kd)
+    return u, k
+
+
+def run_lex_impl(ctx, h, inputs):
+    """harness/c11_lex.c on hex lines -> list of (tokens-and-echo string, parse result)"""
+    env = ctx.san_env({"MPS_JOBS": "1"})
+    res = [None] * len(inputs)
+
+    def chunk(lo, hi):
+        start = 0
+        sub = inputs[lo:hi]
+        text = "".join(hx(s) + "\n" for s in sub)
+        while start < len(sub):
+            rc, out, err = vf.sh([h, str(start)], input=text, timeout=1200, env=env)
+            got = -1
+            tok = {}
+            for ln in out.splitlines():
+                if not ln.startswith("@@ "): continue
+                w = ln.split(" ", 3)
+                n = int(w[1])
+                if w[2] == "TOKENS": tok[n] = ("TOKENS " + (w[3] if len(w) > 3 else "")).split(" | PARSE")[0].strip()
+                elif w[2] == "RESULT":
+                    res[lo + n] = (tok.get(n, "?"), w[3] if len(w) > 3 else ""); got = n
+            if got + 1 >= len(sub) and rc == 0: break
+            k = max(got + 1, start)
+            if k >= len(sub): break
+            what = "rc=%s" % rc
+            if "AddressSanitizer" in err or "runtime error" in err:
+                m = re.search(r"SUMMARY: (\w+Sanitizer: [\w-]+)", err) or re.search(r"runtime error: ([^\n]{0,60})", err)
+                what = "sanitizer " + (m.group(1) if m else "report")
+            elif "terminate called" in err:
+                m = re.search(r"what\(\):\s*([^\n]*)", err); what = "uncaught-exception " + (m.group(1) if m else "")
+            res[lo + k] = (tok.get(k, "?"), "CRASH " + what)
+            start = k + 1
+    n = len(inputs); step = max(1, (n + 15) // 16)
+    with ThreadPoolExecutor(max_workers=16) as ex:
+        list(ex.map(lambda lo: chunk(lo, min(n, lo + step)), range(0, n, step)))
+    return res
+
+
+def run_lex_model(ctx, inputs, ways=16):
+    mb = ctx.model_bin("inline")
+    res = [None] * len(inputs)
+
+    def part(i):
+        sub = inputs[i::ways]
+        if not sub: return
+        rc, out, err = vf.sh([mb, "lex"], input="".join(hx(s) + "\n" for s in sub), timeout=1800)
+        lines = out.split("\n")
+        if lines and lines[-1] == "": lines.pop()
+        if rc != 0 or len(lines) != len(sub):
+            raise vf.InfraError("model driver (lex): rc=%d, %d lines for %d inputs: %s" % (rc, len(lines), len(sub), err[-500:]))
+        res[i::ways] = lines
+    with ThreadPoolExecutor(max_workers=ways) as ex:
+        list(ex.map(part, range(ways)))
+    out = []
+    for ln in res:
+        a, rest = ln.split(" | PARSE ", 1)
+        b, rest = rest.split(" | HAND ", 1)
+        hand, lit = rest.split(" | LIT ", 1)
+        out.append((a.strip(), b.strip(), hand.strip(), lit.strip()))
+    return out
+
+
+def py_flex(rules, s):
+    """independent reading of the rules (Python's re on the reader's regular expressions): longest match, first rule;
+    the default rule echoes -> (token list as the harness prints it, echoed bytes)"""
+    cres = [re.compile(fr.rx_py(r), re.S) for r, _ in rules]
+    b = s.encode("latin-1")
+    toks, echo, pos = [], b"", 0
+    while pos < len(b):
+        best, bi = 0, None
+        for i, cre in enumerate(cres):
+            # longest match of rule i at pos: try all prefixes (inputs are short)
+            for end in range(len(b), pos + best, -1):
+                if cre.fullmatch(b, pos, end): best, bi = end - pos, i; break
+        if bi is None:
+            echo += b[pos:pos + 1]; pos += 1; continue
+        a = rules[bi][1]
+        text = b[pos:pos + best]; pos += best
+        if a[0] == "return": toks.append("%s:%s" % (a[1], text.hex()))
+        elif a[0] == "char": toks.append("CHR:%s" % text[:1].hex())
+        elif a[0] == "echo": echo += text
+        elif a[0] == "other": toks.append("BAD")
+    return (("TOKENS " + " ".join(toks)).strip() + " | ECHO " + echo.hex()).strip()
+
+
+def lexer_stage(ctx, rng, texts, lexer_state, lex_rules, found):
+    """real flex scanner (yylex called directly) and mps_parse_inline_poly_from_string vs the extracted GENERATED scanner and the
+    pipeline over it; returns coverage"""
+    h = ctx.compile_harness(["c11_lex.c"], "c11_lex", mode="san")
+    inputs, kinds = lex_inputs(ctx, rng, texts)
+    unpatched = lexer_state == "unpatched-newline"
+    # on the tree without fixes/C11_newline.patch a newline is echoed and skipped: same tokens and result as with a blank in its place
+    model_in = [s.replace("\n", " ") if unpatched else s for s in inputs]
+    model = run_lex_model(ctx, model_in)
+    impl = run_lex_impl(ctx, h, inputs)
+    hist, tokhist, results, bad_corr, hand_diff, nl_known, pyref_diff = {}, {}, {}, 0, 0, 0, 0
+    n_lits = 0
+    for s, kd, (mt, mp, hand, lit), r in zip(inputs, kinds, model, impl):
+        hist[kd] = hist.get(kd, 0) + 1
+        n_lits += int(lit.split()[1])
+        if not lit.startswith("ok"):
+            ctx.violation("correspondence:literal-payload-vs-conversion-model:" + hx(s)[:60],
+                          "a numeric literal of %r: the payload of the scanner model differs from what the model of Monomial::Monomial (const char *, long) "
+                          "computes from its text (excluded by theorem C11_literal_value)" % s, {"hex": hx(s)}, no_input=True)
+        it, ip = r if r is not None else ("?", "CRASH no-output")
+        for w in it.split(" | ECHO")[0].split()[1:]:
+            nm = w.split(":")[0]; tokhist[nm] = tokhist.get(nm, 0) + 1
+        results[ip.split(" ")[0]] = results.get(ip.split(" ")[0], 0) + 1
+        if hand != "same":
+            hand_diff += 1
+            ctx.violation("correspondence:hand-lexer-vs-generated-lexer:" + hx(s)[:60],
+                          "the hand-written scanner model and the scanner generated from tokenizer.l deliver different tokens for %r (excluded by theorem C11_generated_lexer_agrees)" % s,
+                          {"hex": hx(s)}, no_input=True)
+        expect_t = mt
+        if unpatched and "\n" in s:
+            expect_t = mt.split(" | ECHO")[0].strip() + " | ECHO " + "0a" * s.count("\n")
+        if lex_rules is not None and lexer_state == "expected" and len(s) <= 12:
+            if py_flex(lex_rules, s) != mt:
+                pyref_diff += 1
+                ctx.violation("correspondence:flex-reader-vs-coq-lexer:" + hx(s)[:60],
+                              "Python reading of the rules gives %s, the extracted Coq scanner %s for %r" % (py_flex(lex_rules, s)[:100], mt[:100], s),
+                              {"hex": hx(s)}, no_input=True)
+        if ip == mp and it == expect_t:
+            if unpatched and "\n" in s and ip.startswith("OK"): nl_known += 1
+            continue
+        # the property's predicate: the result of the parse (accept with these coefficients / reject)
+        if ip != mp:
+            sig = ("sanitizer:" if ip.startswith("CRASH sanitizer") else "mismatch:lex:") + hx(s)[:80]
+            if ctx.violation(sig, "%r: mps_parse_inline_poly_from_string gives %s, the pipeline over the generated scanner gives %s (tokens: real %s / model %s)"
+                             % (s, ip[:100], mp[:100], it[:120], expect_t[:120]), {"hex": hx(s), "expect": mp, "got": ip, "kind": "lexer-stage"}):
+                found[0] = True
+        else:
+            bad_corr += 1
+            ctx.violation("correspondence:flex-vs-generated-lexer:" + hx(s)[:60],
+                          "%r: same parse result %s but yylex returns %s and the generated scanner model %s" % (s, ip[:60], it[:160], expect_t[:160]),
+                          {"hex": hx(s)}, no_input=True)
+    if unpatched:
+        # the witness of C11_newline_falls_through_refuted on the real code
+        w = "x\n+1"
+        r = run_lex_impl(ctx, h, [w])[0]
+        if r is not None and r[1].startswith("OK"):
+            ctx.violation("illformed-accepted:stray-newline",
+                          "ill-formed %r (a newline is not a character of the language) is accepted as %s and the newline is ECHOed to stdout: "
+                          "the catch-all rule `.` of tokenizer.l does not match '\\n', flex's default rule applies" % (w, r[1]),
+                          {"hex": hx(w), "expect": "ERR", "got": r[1], "kind": "lexer-stage"})
+    return {"lexer_inputs": len(inputs), "input_class": hist, "tokens_returned_by_yylex": tokhist, "parse_result": results,
+            "token_or_echo_mismatches_with_equal_result": bad_corr, "hand_vs_generated_lexer_differences": hand_diff,
+            "python_reading_vs_coq_lexer_differences": pyref_diff, "numeric_literals_checked_against_conversion_model": n_lits, "newline_inputs_accepted(known finding)": nl_known,
+            "samples": [inputs[i] for i in sorted(rng.sample(range(len(inputs)), min(8, len(inputs))))]}
+
+
 def run(ctx):
     rng = ctx.rng
+    # known/C11.json is this property's fragment of known_findings.json (merged by lib/mkmanifest.py); entries that have not been
+    # merged yet are honoured as well, so that a finding published together with the check is quiet from the first run on
+    try:
+        have = {k.get("signature") for k in ctx.known}
+        for k in json.load(open(os.path.join(VERIF, "known", "C11.json"))).get("findings", []):
+            if k.get("property") == "C11" and k.get("status", "open") == "open" and k.get("signature") not in have:
+                ctx.known.append(k)
+    except (OSError, ValueError):
+        pass
     committed = open(GEN).read()
     gen = regen_grammar(ctx)
     grammar_state = "expected"
@@ -495,10 +737,23 @@ def run(ctx):
         if aut != committed_aut:
             aut_state, restore_aut = "changed", committed_aut
             with open(AUT, "w") as f: f.write(aut)
+    # the scanner: tokenizer.l of the snapshot -> Gen/LexerGen.v (the committed file is the reading of tokenizer.l WITH fixes/C11_newline.patch)
+    committed_lex = open(LEXGEN).read()
+    lexgen, lex_rules = regen_lexer(ctx)
+    lexer_state, restore_lex = "expected", None
+    if lexgen != committed_lex:
+        if hashlib.sha1(lexgen.encode()).hexdigest() == UNPATCHED_LEXER_SHA1:
+            lexer_state = "unpatched-newline"      # reported with its witness on the real code in lexer_stage
+        else:
+            lexer_state, restore_lex = "changed", committed_lex
+            with open(LEXGEN, "w") as f: f.write(lexgen)
     try:
         ctx.prove()
     finally:
         stale = []
+        if restore_lex is not None:
+            with open(LEXGEN, "w") as f: f.write(restore_lex)
+            stale += ["Gen/LexerGen", "LexPipeline", "LexPipelineProofs", "LexAgree", "LexLiteral", "InlineYaccModel"]
         if restore is not None:
             with open(GEN, "w") as f: f.write(restore)
             stale += ["Gen/GrammarGen", "InlineGrammarShape", "InlineLRCheck"]
@@ -516,6 +771,15 @@ def run(ctx):
     # ------------------------------------------------------------------ replay of one stored case
     if ctx.replay:
         case = json.load(open(ctx.replay))
+        if "hex" in case:
+            hl = ctx.compile_harness(["c11_lex.c"], "c11_lex", mode="san")
+            s = bytes.fromhex(case["hex"]).decode("latin-1")
+            got = run_lex_impl(ctx, hl, [s])[0]
+            got = got[1] if got is not None else "CRASH no-output"
+            if got != case.get("expect", "ERR"):
+                ctx.violation(case.get("signature", "replay"), "replay: %r gives %s, expected %s" % (s, got, case.get("expect", "ERR")), case)
+            return ctx.finish("proof", {"evaluations": 1, "distinct_nontrivial": 1, "rule": "replayed case", "samples": [s],
+                                        "histogram": {"replay": 1}, "trusted_base": TRUSTED}, ASSUME)
         if "expr" in case:
             got = run_impl(ctx, h, [case["expr"]])[0]
             if got != case["expect"]:
@@ -556,6 +820,12 @@ def run(ctx):
     for s in LITS:
         cases.append((s, lit(s), "literal")); cases.append((s + "i", ilit(s), "literal"))
         cases.append(("x^2*" + s + "-" + s + "i", ('sub', ('mul', ('pow', ('x',), 2), lit(s)), ilit(s)), "literal"))
+    for _ in range(ctx.pick(1500, 10000)):
+        s = rand_literal(rng)
+        a = ilit(s) if rng.random() < 0.3 else lit(s)
+        X_ = ('x',)
+        t = rng.choice([a, ('mul', a, X_), ('add', ('pow', X_, 2), a), ('neg', a), ('sub', X_, ('mul', a, ('pow', X_, 3))), ('pow', a, 2)])
+        cases.append((show(t), t, "literal-random"))
     # the four expressions of DESIGN.md section 4 row 5 and relatives
     X = ('x',)
     for t in [('add', ('neg', ('pow', X, 2)), lit("4")), ('add', ('neg', ('pow', ('add', X, lit("1")), 2)), lit("4")),
@@ -611,6 +881,7 @@ def run(ctx):
         if m != expect:
             corr_bad += 1
             what_m = "lr-pipeline-model-vs-reference-model:" if m.startswith("LRDIFF") else \
+                     "generated-lexer-pipeline-vs-hand-lexer-pipeline:" if m.startswith("GENDIFF") else \
                      "formal-model-vs-denotation:" if m.startswith("FPDIFF") else "model-vs-denotation:"
             ctx.violation("correspondence:" + what_m + text[:60],
                           "Coq model gives %s for %r, the tree denotes / the mutation class demands %s" % (m[:80], text, expect[:80]),
@@ -627,17 +898,24 @@ def run(ctx):
             if ctx.violation(sig, what, {"expr": text, "expect": expect, "got": g, "kind": kind}):
                 found[0] = True
 
+    # ------------------------------------------------------------------ the scanner generated from tokenizer.l vs the real flex scanner
+    lexcov = lexer_stage(ctx, rng, texts, lexer_state, lex_rules, found)
+    ctx.log("scanner stage: %d strings through yylex / mps_parse_inline_poly_from_string and the generated scanner model" % lexcov["lexer_inputs"])
+
     ctx.proof_violation_if_broken(search=lambda: found[0])
     if grammar_state == "changed" and ctx.proof and ctx.proof.get("ok"):
         ctx.notes.append("grammar data changed but obligations still check?")
 
-    cov = {"evaluations": len(cases), "distinct_nontrivial": nontrivial,
+    cov = {"evaluations": len(cases) + lexcov["lexer_inputs"], "distinct_nontrivial": nontrivial + lexcov["lexer_inputs"] - lexcov["input_class"].get("expression", 0),
            "rule": "distinct input strings that are not a single leaf (ill-formed strings count); every string goes through "
-                   "the implementation, the extracted Coq model and (for trees) the exact denotation computed by the check",
+                   "the implementation, the extracted Coq model and (for trees) the exact denotation computed by the check; "
+                   "plus the distinct strings of the scanner stage that are not plain expression strings of the first stage",
            "samples": [cases[i][0] for i in sorted(rng.sample(range(len(cases)), min(12, len(cases))))],
            "histogram": {"input_class": hist, "ast_nodes": opshist, "implementation_result": errkinds,
                          "model_result(OK/ERR = reference model and table-driven pipeline model agree)": modelkinds,
                          "tokens_per_input(bounded table theorem covers <=6)": tokhist},
+           "scanner_stage(real yylex + parser vs generated scanner model)": lexcov,
+           "lexer_state": lexer_state, "lexer_gen_sha1": hashlib.sha1(lexgen.encode()).hexdigest(),
            "grammar_state": grammar_state, "bison_automaton_state": aut_state, "grammar_gen_sha1": hashlib.sha1(gen.encode()).hexdigest(),
            "model_vs_denotation_mismatches": corr_bad,
            "trusted_base": TRUSTED}
@@ -651,10 +929,17 @@ TRUSTED = ["Coq 8.16.1 kernel (full .vo build), axiom-free development (Print As
            "bison: its LALR table is imported from `bison -y --xml` on every run (checks/c11_bison_report.py, unverified reader); trusted: "
            "the XML report describes the tables in the generated yacc-parser.c, and the yacc skeleton behaves like InlineLR.lr_loop; "
            "the table passes InlineLRSound.lr_check (kernel computation on the imported table) on every run",
-           "tokenizer.l is modelled by hand (InlineModel.lex, InlineLR.ylex with the token names), tied by the same differential",
+           "tokenizer.l: its rules are read on every run (checks/c11_flex_reader.py, unverified reader, output pinned by lexer_gen = expected_lexer and "
+           "cross-examined by an independent Python reading of the same rules); trusted: flex implements its documented semantics (longest match, first "
+           "rule on ties, default rule) and YY_INPUT delivers the bytes of the C string; the real scanner is called directly (harness/c11_lex.c: yylex, "
+           "yytext, yylval, yyout) and compared token by token with the extracted generated scanner",
+           "numeric literals: Monomial::Monomial (const char *, long) is represented by the character-level model of PolFile/DecRatModel.v (C10's tie) "
+           "and by the exact comparison of the parsed coefficients with the check's own decimal reading of every literal",
            "table-driven parser: accepted <=> derivable in the declarative grammar with that AST, proved for all lengths; not formalised: "
            "completeness of the REFERENCE parser parse_ref for that grammar (so 'table accepts => parse_ref accepts' is bounded + differential)",
            "the check's own exact Gaussian-rational evaluation of generated trees (independent of the Coq model)"]
 ASSUME = ["well-formedness is judged by the language fixed in coq/Inline/InlineModel.v (exponent = integer literal, one 'i' per constant, "
-          "'/' only inside a rational constant); integer-valued non-literal exponents (x^2.0, x^4/2) and the variable letters y,z,X,Y,Z are not judged",
+          "'/' only inside a rational constant); integer-valued non-literal exponents (x^2.0, x^4/2) are not judged; the six letters [xXzZyY] of "
+          "tokenizer.l are all read as the variable x (the models follow the code: `x*Y` is x^2); a newline is not a character of the language",
+          "inputs are C strings (no NUL byte); decimal exponents below 1000 and '^' exponents whose (k+1) product is <= 150 in the scanner stage",
           "degree <= 60 and exponents <= 9 in generated inputs; int overflow of huge exponents is outside the tested range"]
